@@ -209,7 +209,7 @@ def run(tier: str, seed: int, t0: float) -> int:
     stats.bounds["slices"] = len(cuts)
     jobs.append((b, "G+T json[s1]"))
     # ---- T random
-    for name in schemas.BUNDLED_PLUS + ["s1", "s4", "bm"]:
+    for name in schemas.BUNDLED_PLUS + ["s1", "s4", "bm", "at"]:
         sch2, js2, prs = universe.random_docs(name, 25 if not thorough else 250, rng, size=1.3)
         info2 = gen.SchemaInfo(js2)
         b2 = trace.Batch(js2)
